@@ -9,9 +9,16 @@ RULE = ("documents as in C17 (generated Clausewitz text, one-byte mutations, ran
         "(value / object / array reader .json()) x 3 duplicate-key modes x 3 type narrowings x pretty on/off x Windows-1252 "
         "(all 18 options) and UTF-8 (sampled options); plus Scalar::to_f64 on number-like strings. The produced JSON text is "
         "parsed back with serde_json (strict, duplicates preserved) into a tree and compared with the model's tree; "
-        "non-trivial = the tree has at least one entry or element")
-TRUSTED = ["serde_json prints the tree (escaping, number formatting, pretty printing): oracle, every output is re-parsed strictly "
-           "by serde_json and by Python's json module and must be valid UTF-8",
+        "non-trivial = the tree has at least one entry or element. "
+        "Wave 4 (props/C16_text.py): stream print = the exact bytes of to_writer / to_vec / to_string (must agree) of all three builders, "
+        "compared with the printer model JsonText.json_text (serde_json compact / pretty formatter; float tokens lexed by the harness "
+        "and replaced by their bits on both sides); oracles on the text: a strict RFC 8259 recogniser + Python json + UTF-8, pretty = "
+        "minified up to whitespace between tokens, document order predicted from the tape string alone (Preserve, None, root), "
+        "header = single-entry object, json() without with_options = default options; wide / deep documents of C17_iter join")
+TRUSTED = ["serde_json prints the tree: since wave 4 its two formatters are MODELLED (JsonText.v: escaping table, itoa, null for non-finite "
+           "floats, compact / pretty layout) and tied byte for byte by the stream print; only ryu's float digits remain a parameter whose "
+           "contract (an ASCII JSON number token) is checked lexically on every output; every output is also re-parsed strictly "
+           "by serde_json, by Python's json module and by a recogniser of RFC 8259 in props/C16_text.py, and must be valid UTF-8",
            "Encoding::decode is a parameter of the model (executable stand-ins exercised by correspondence; C12 family)",
            "Scalar::to_f64 is modelled exactly with integer arithmetic (Json.to_f64: u64->f64 and f64/f64 round-to-nearest-even), "
            "tied by the f64 stream; the Flocq statement about it belongs to C11",
@@ -294,6 +301,10 @@ def run(ctx):
 
     # ---- documents
     docs = C17.gen_docs(ctx, ctx.scale(500, 4000), ctx.scale(600, 5000), ctx.scale(800, 6000))
+    # >>> a_dom (wave 4): wide objects (many duplicate keys) and deep documents
+    from props import C17_iter, C16_text
+    docs = docs + C17_iter.extra_docs(ctx, ctx.scale(40, 400), ctx.scale(40, 400))
+    # <<<
     ctx.count("documents", len(docs))
     parsed = C17.parse_docs(ctx, docs)
     # DOM views (implementation) of every node: what the content oracle compares the JSON with
@@ -464,6 +475,9 @@ def run(ctx):
                 if unwrap_op(e[1][1], f[1]) is None:
                     fail("content-op", "KeyValuePairs: operator of field %d lost" % i); break
 
+    # >>> a_dom (wave 4): the exact text of the three entry points vs the printer model, text-level oracles
+    C16_text.run_text(ctx, parsed, out)
+    # <<<
     # ---- the text itself: valid UTF-8, valid JSON for an independent parser
     tcases = []
     for m, (o, c) in out.items():
@@ -495,6 +509,10 @@ def search(ctx):
 
 CLAIM = {
     "text": "Coq theorems over a Gallina model of json/mod.rs that maps (options, tape, node) to a JSON tree (ordered, possibly duplicate keys; numbers as i64/u64/f64 bits): on every tape satisfying TapeWf.tape_wf and for all options no unwrap/index/underflow panic is reachable and the recursion terminates (json_total); Preserve emits exactly the fields' keys and values in document order plus the remainder, Group emits one entry per distinct raw key in first-appearance order holding that key's values in order, KeyValuePairs emits [[k,v],...] (json_content); scalars narrow bool -> i64 -> u64 -> f64 -> string through Scalar's conversions and integers f64 cannot hold exactly stay strings (narrowing_spec); the tree does not depend on `pretty`. The model is tied to the code by parsing every produced JSON text back with serde_json (strict, duplicates kept, floats re-read exactly) and comparing trees, for 3 entry points x all 36 option/encoding combinations on every container node of every accepted document; validity of the text is additionally checked with Python's json module",
+    "wave4": "Props/C16_text.v: for every parsed tape, all options, pretty or minified, the three entry points, every decoder returning well-formed UTF-8 and every float printer returning ASCII JSON numbers, the TEXT (JsonText.json_text of the model's tree) is in the RFC 8259 grammar (inductive predicates) and is valid UTF-8 (C16_parsed_text_valid_json); the pretty text is the same token sequence as the minified one with whitespace only between tokens and the minified text is the concatenation of the tokens (C16_pretty_whitespace_only); TypeNarrowing::None leaves no boolean / number anywhere (C16_narrowing_none_everywhere); headers are single-entry objects (C16_header_single_entry)",
     "note": "Trusted: Coq kernel, extraction, harness; serde_json's printing is an oracle (re-parsed on every case); Encoding::decode is a model parameter; Scalar::to_f64 modelled in exact integer arithmetic and tied per function. tape_wf of parser output is the tape family's theorem, here an oracle (C17 stream wf).",
     "technique": "machine-checked proof in Coq over an executable model + model/implementation correspondence by extraction",
 }
+
+# a_dom (wave 4): the additional claim is part of the manifest text
+CLAIM["text"] = CLAIM["text"] + ". Wave 4: " + CLAIM.pop("wave4")
